@@ -30,6 +30,7 @@ type RTEvent struct {
 	Msg       string   `json:"msg"`
 	PV        []Rec    `json:"pv"`
 	Reprinted string   `json:"reprinted"`
+	CBad      []int    `json:"cbad"` // triples: which of subject(1)/predicate(2)/object(3) fail their OWN round trip
 }
 
 func rtCase(sp *VSpec, src string) {
@@ -38,7 +39,7 @@ func rtCase(sp *VSpec, src string) {
 		stat("ctor-rejected")
 		return
 	}
-	ev := RTEvent{Ev: "RT", Kind: v.K, Src: src, PV: []Rec{}}
+	ev := RTEvent{Ev: "RT", Kind: v.K, Src: src, PV: []Rec{}, CBad: []int{}}
 	ev.Dom = domFlags(v)
 	ev.V, _ = proj(v, true)
 	nontrivial := false
@@ -53,6 +54,9 @@ func rtCase(sp *VSpec, src string) {
 			len(s) > 24 || strings.ContainsAny(s[1:], "[]<>@^")
 		r := parseKind(v.K, s, true)
 		ev.Out, ev.Site, ev.Msg, ev.PV = r.Out, r.Site, r.Msg, r.Recs
+		if v.K == "triple" && (r.Out != "value" || !sameRecs(r.Recs, ev.V)) {
+			ev.CBad = badComponents(v.T)
+		}
 		if r.Out == "value" {
 			s2, p2, site2, msg2 := printValue(r.V)
 			if p2 {
@@ -132,11 +136,11 @@ type GRTEvent struct {
 	Site   string   `json:"site"`
 	Msg    string   `json:"msg"`
 	Feat   []string `json:"feat"` // mechanical features of the written text (for classification)
-	Bad    []int    `json:"bad"`  // indexes (1-based, into g) of the triples whose own print/parse round trip fails
+	Bad    [][]int  `json:"bad"`  // [i, c...]: triple i (1-based, into g) fails its own print/parse round trip; c = its components (1..3) that fail theirs
 }
 
 func grtCase(specs []*VSpec, src string) {
-	ev := GRTEvent{Ev: "GRT", Src: src, Dom: []string{}, G: [][]Rec{}, G2: [][]Rec{}, Feat: []string{}, Bad: []int{}, Out: "ok"}
+	ev := GRTEvent{Ev: "GRT", Src: src, Dom: []string{}, G: [][]Rec{}, G2: [][]Rec{}, Feat: []string{}, Bad: [][]int{}, Out: "ok"}
 	var ts []*triple.Triple
 	dom := map[string]bool{}
 	for _, sp := range specs {
@@ -174,7 +178,7 @@ func grtCase(specs []*VSpec, src string) {
 			s, p, _, _ := printValue(v)
 			r := parseKind("triple", s, true)
 			if p || r.Out != "value" || !sameRecs(r.Recs, want) {
-				ev.Bad = append(ev.Bad, i+1)
+				ev.Bad = append(ev.Bad, append([]int{i + 1}, badComponents(t)...))
 			}
 		}
 		var buf bytes.Buffer
@@ -363,4 +367,31 @@ func sameRecs(a, b []Rec) bool {
 		}
 	}
 	return true
+}
+
+// ownRoundTrip: does printing v and parsing the text with v's own parser give v back?
+func ownRoundTrip(v *Value) bool {
+	want, _ := proj(v, true)
+	s, p, _, _ := printValue(v)
+	if p {
+		return false
+	}
+	r := parseKind(v.K, s, true)
+	return r.Out == "value" && sameRecs(r.Recs, want)
+}
+
+// badComponents lists the components of a triple (1 subject, 2 predicate, 3 object) that do not
+// survive their own round trip; used only to attribute a failing triple to the failing component.
+func badComponents(t *triple.Triple) []int {
+	r := []int{}
+	if !ownRoundTrip(&Value{K: "node", N: t.Subject()}) {
+		r = append(r, 1)
+	}
+	if !ownRoundTrip(&Value{K: "pred", P: t.Predicate()}) {
+		r = append(r, 2)
+	}
+	if !ownRoundTrip(&Value{K: "obj", O: t.Object()}) {
+		r = append(r, 3)
+	}
+	return r
 }
